@@ -1,7 +1,216 @@
-/- Driver glue for C20: case lines `c20.<sub> <args…> | <impl…>` (stub until the property is built) -/
-import FileD.Prelude.Tok
-namespace FileD.DrvC20
+/-
+  Driver glue for C20. Case lines (tokens the model does not need are marked ·):
 
-def handle (_cmd : String) (_args _impl : List String) : Option (String × String) := none
+  c20.spam <thr> <unban> <intervalNs> <rulesNil> <nExc> <checkSourceName>… <nRules> <ruleThr>…
+           <defs·> <nOps> op…
+      op = e <id> <name·> <isNew> <timeNs> <event·> <meta·> <excbits> <rulebits>   |   m
+      excbits: 2 chars per exception (Match(event), Match(name)), `-` if none; rulebits: 1 char per rule
+    impl: per op `0|1`  or  `B <k> (<id> <counter>)… A <k> (<id> <counter>)…` (all source counters
+          before / after the round); then `D <k> …` (Dump(): counters >= default threshold)
+
+  c20.in <max> <cut> <field> <j|r> <asThr> <intervalNs> <metaField> <nExc> <checkSourceName>… <defs·>
+         <nRecs> rec…
+      rec = <sourceID> <name·> <cur> <streamOff|x> <isNew> <hasMeta> <metaKey> <metaVal> <pass> <data>
+            <nCand> (<bytes> <excbits> (E | V <tree>))…
+    impl: per record `r` | `d <tree>`
+-/
+import FileD.Prelude.Tok
+import FileD.Model.Antispam
+import FileD.Model.Admission
+import FileD.Spec.C20
+namespace FileD.DrvC20
+open FileD Tok
+
+def bits? (s : String) : Option (List Bool) :=
+  if s = "-" then some [] else
+  s.toList.mapM fun c => if c = '1' then some true else if c = '0' then some false else none
+
+def pairs : List Bool → List (Bool × Bool)
+  | a :: b :: r => (a, b) :: pairs r
+  | _ => []
+
+def takeN {α} (p : String → Option α) : Nat → List String → Option (List α × List String)
+  | 0, ts => some ([], ts)
+  | _+1, [] => none
+  | n+1, t :: ts => do
+    let x ← p t
+    let (xs, r) ← takeN p n ts
+    pure (x :: xs, r)
+
+/-! ### c20.spam -/
+
+def parseOps : Nat → List String → Option (List Antispam.Op × List String)
+  | 0, ts => some ([], ts)
+  | n+1, "m" :: ts => do
+    let (ops, r) ← parseOps n ts
+    pure (.maint :: ops, r)
+  | n+1, "e" :: id :: _name :: nw :: tm :: _ev :: _meta :: eb :: rb :: ts => do
+    let id ← bytes? id
+    let nw ← bool? nw
+    let tm ← int? tm
+    let eb ← bits? eb
+    let rb ← bits? rb
+    let (ops, r) ← parseOps n ts
+    pure (.event { id := id, isNew := nw, time := tm, excM := pairs eb, ruleM := rb } :: ops, r)
+  | _, _ => none
+
+def encDump (tag : String) (d : List (Bytes × Int)) : String :=
+  unwords (tag :: toString d.length :: d.flatMap (fun x => [Hex.enc x.1, toString x.2]))
+
+def parseDump (tag : String) : List String → Option (List (Bytes × Int) × List String)
+  | t :: n :: ts =>
+    if t ≠ tag then none else do
+    let k ← nat? n
+    let rec go : Nat → List String → Option (List (Bytes × Int) × List String)
+      | 0, ts => some ([], ts)
+      | k+1, id :: c :: ts => do
+        let id ← bytes? id
+        let c ← int? c
+        let (r, ts') ← go k ts
+        pure ((id, c) :: r, ts')
+      | _, _ => none
+    go k ts
+  | _ => none
+
+/-- the model's result tokens for a run -/
+def runSpam (cfg : Antispam.Cfg) : Antispam.State → List Antispam.Op → List String
+  | st, [] => [encDump "D" (Antispam.dump cfg st)]
+  | st, .event e :: ops =>
+    ofBool (Antispam.isSpam cfg st e).1 :: runSpam cfg (Antispam.isSpam cfg st e).2 ops
+  | st, .maint :: ops =>
+    let st' := Antispam.maintenance cfg st
+    encDump "B" (Antispam.dumpAll st) :: encDump "A" (Antispam.dumpAll st') :: runSpam cfg st' ops
+
+/-- the implementation's observations (final dump dropped) -/
+def parseObs : List Antispam.Op → List String → Option (List SpecC20.Obs)
+  | [], ts => (parseDump "D" ts).bind fun (_, r) => if r = [] then some [] else none
+  | .event _ :: ops, t :: ts => do
+    let a ← bool? t
+    let r ← parseObs ops ts
+    pure (.ans a :: r)
+  | .maint :: ops, ts => do
+    let (b, r1) ← parseDump "B" ts
+    let (a, r2) ← parseDump "A" r1
+    let r ← parseObs ops r2
+    pure (.maint b a :: r)
+  | _, _ => none
+
+def handleSpam (args impl : List String) : Option (String × String) :=
+  match args with
+  | thr :: ub :: iv :: rn :: rest => do
+    let thr ← int? thr
+    let ub ← int? ub
+    let iv ← int? iv
+    let rn ← bool? rn
+    let (excs, r1) ← listOf bool? rest
+    let (rules, r2) ← listOf int? r1
+    match r2 with
+    | _defs :: nops :: r3 =>
+      let n ← nat? nops
+      let (ops, r4) ← parseOps n r3
+      if r4 ≠ [] then none
+      let cfg : Antispam.Cfg := ⟨thr, ub, iv, rn, excs, rules⟩
+      let m := unwords (runSpam cfg Antispam.init ops)
+      let p := match parseObs ops impl with
+        | some obs => SpecC20.verdictTok (SpecC20.holdsSpam cfg ops obs)
+        | none => match impl with
+          | t :: _ => if t.startsWith "panic" then "fail" else "bad-impl"
+          | [] => "bad-impl"
+      pure (m, p)
+    | _ => none
+  | _ => none
+
+/-! ### c20.in -/
+
+structure Cand where
+  bytes : Bytes
+  excM  : List (Bool × Bool)
+  dec   : Option JTree
+
+def parseCands : Nat → List String → Option (List Cand × List String)
+  | 0, ts => some ([], ts)
+  | n+1, b :: eb :: "E" :: ts => do
+    let b ← bytes? b
+    let eb ← bits? eb
+    let (cs, r) ← parseCands n ts
+    pure (⟨b, pairs eb, none⟩ :: cs, r)
+  | n+1, b :: eb :: "V" :: ts => do
+    let b ← bytes? b
+    let eb ← bits? eb
+    let (t, r0) ← JTree.parse? ts
+    let (cs, r) ← parseCands n r0
+    pure (⟨b, pairs eb, some t⟩ :: cs, r)
+  | _, _ => none
+
+def findCand (b : Bytes) : List Cand → Option Cand
+  | [] => none
+  | c :: cs => if c.bytes = b then some c else findCand b cs
+
+def parseRecs : Nat → List String → Option (List (Admission.Rec × List Cand) × List String)
+  | 0, ts => some ([], ts)
+  | n+1, sid :: _name :: cur :: so :: nw :: hm :: mk :: mv :: ps :: data :: nc :: ts => do
+    let sid ← nat? sid
+    let cur ← int? cur
+    let so ← if so = "x" then some none else (int? so).map some
+    let nw ← bool? nw
+    let hm ← bool? hm
+    let mk ← bytes? mk
+    let mv ← bytes? mv
+    let ps ← bool? ps
+    let data ← bytes? data
+    let k ← nat? nc
+    let (cands, r1) ← parseCands k ts
+    let (rest, r2) ← parseRecs n r1
+    let rec_ : Admission.Rec :=
+      { sourceID := sid, cur := cur, streamOff := so, isNew := nw,
+        md := if hm then [(mk, mv)] else [], pass := ps, data := data,
+        excM := fun b => match findCand b cands with | some c => c.excM | none => [] }
+    pure ((rec_, cands) :: rest, r2)
+  | _, _ => none
+
+/-- every byte string the model hands to the oracles must be in the case's table -/
+def oracleCovered (s : Admission.Settings) : List (Admission.Rec × List Cand) → Bool
+  | [] => true
+  | (r, cands) :: rest =>
+    (match Admission.checkInputBytes s r.data with
+     | .ok (b, _, true) => (findCand b cands).isSome
+     | _ => true) && oracleCovered s rest
+
+def handleIn (args impl : List String) : Option (String × String) :=
+  match args with
+  | mx :: cut :: fld :: dc :: thr :: iv :: mf :: rest => do
+    let mx ← int? mx
+    let cut ← bool? cut
+    let fld ← bytes? fld
+    let dc ← if dc = "j" then some Admission.Dec.json else if dc = "r" then some Admission.Dec.raw else none
+    let thr ← int? thr
+    let iv ← int? iv
+    let mf ← bytes? mf
+    let (excs, r1) ← listOf bool? rest
+    match r1 with
+    | _defs :: nrec :: r2 =>
+      let n ← nat? nrec
+      let (recs, r3) ← parseRecs n r2
+      if r3 ≠ [] then none
+      let s : Admission.Settings :=
+        { maxEventSize := mx, cutOff := cut, cutOffField := fld, dec := dc, metaField := mf,
+          as := ⟨thr, 4, iv, true, excs, []⟩ }
+      let allCands := recs.flatMap (·.2)
+      let decode : Bytes → Option JTree := fun b =>
+        match findCand b allCands with | some c => c.dec | none => none
+      let rs := recs.map (·.1)
+      let m := if !oracleCovered s recs then "oracle-miss" else
+        match Admission.inSeq s decode Antispam.init rs with
+        | .ok os => unwords (os.map SpecC20.outcomeTok)
+        | .error p => panicTok p
+      let p := if SpecC20.holdsIn s decode rs (unwords impl) then "ok" else "fail"
+      pure (m, p)
+    | _ => none
+  | _ => none
+
+def handle (cmd : String) (args impl : List String) : Option (String × String) :=
+  if cmd = "c20.spam" then handleSpam args impl
+  else if cmd = "c20.in" then handleIn args impl
+  else none
 
 end FileD.DrvC20
